@@ -5,6 +5,7 @@ import (
 	"crypto/sha256"
 	"encoding/hex"
 	"fmt"
+	"sync/atomic"
 
 	pb "github.com/buchgr/bazel-remote/v2/genproto/build/bazel/remote/execution/v2"
 	"google.golang.org/protobuf/proto"
@@ -174,6 +175,10 @@ func (o obs) String() string {
 	return s
 }
 
+// headLenUnexplained counts HEAD /ac hits whose Content-Length is neither the client's
+// encoding nor a length seen on a verified GET (observation only).
+var headLenUnexplained atomic.Int64
+
 // consistent: could a slot in state v have produced o?
 func consistent(ns string, sl *slot, v val, o obs) bool {
 	switch o.kind {
@@ -207,7 +212,10 @@ func consistent(ns string, sl *slot, v val, o obs) bool {
 			if n, ok := sl.wire[v.tag]; ok && n == int(o.length) {
 				return true
 			}
-			return false
+			// The byte length of the server's re-serialisation of a validated ActionResult
+			// is not fixed by the statement: a hit of unexplained length is counted only.
+			headLenUnexplained.Add(1)
+			return true
 		}
 		return true
 	}
